@@ -285,7 +285,7 @@ def c05_jobs(tier):
     hs = []
     for fam, what in (("c01", "derived code: full-copy round trip"), ("c02", "derived code: eps == original under the substitution (DeserType asserted at type level) and == full")):
         for row in rows:
-            if tier == "quick" and not row["quick"] and row["case"] not in ("MentionU16", "BothC", "ZGenU32", "E1C", "ZConst3", "TupSC"):
+            if tier == "quick" and not row["quick"] and row["case"] not in ("MentionU16", "GenC", "ZGenU32", "E1C", "ZConst3", "TupSC"):
                 continue
             pres = [0] if tier == "quick" else U.residues(row, "quick")
             for pre in pres:
@@ -327,20 +327,19 @@ C08_MEM = ["c08_load_mem_u32", "c08_load_mem_u32_trail5", "c08_load_mem_tup2", "
 C08_REST = ["c08_load_full_u32", "c08_load_full_tup2", "c08_store_u32", "c08_store_tup2"]
 PLAN["C08"] = dict(
     quick=lambda seed: [dict(cfg="nommap", harnesses=names("c08", C08_MEM[:4] + C08_REST[:1] + C08_REST[2:3] + ["c08_overaligned_refused"], bound="file = real serialization of a symbolic value (+ trailing bytes); fs stubs", what="load_mem/load_full/store vs the serialized bytes; region aligned, rounded, zero tail, borrows inside, move/box", covers="none")
-                             + [twin("c08::c08_twin_reach")], timeout=900),
-                        dict(cfg="default", tag="1", harnesses=names("c08", ["c08_load_mem_u32"], bound="default features (mmap compiled in), success path only", what="load_mem vs the serialized bytes", covers="none"), timeout=900)],
-    thorough=lambda seed: [dict(cfg="nommap", harnesses=names("c08", C08_MEM + C08_REST + [], bound="file = real serialization of a symbolic value; fs stubs", what="load_mem/load_full/store", covers="none") + [twin("c08::c08_twin_reach")], timeout=2400),
-                           dict(cfg="default", tag="1", harnesses=names("c08", ["c08_load_mem_u32", "c08_load_mem_tup2"], bound="default features, success path", what="load_mem", covers="none"), timeout=2400)],
-    bounds={"files": "<= 64 bytes; reader types u32, u64, (u16,u16), [u32;1], ZeroS (derived zero-copy struct: borrowed reference inside the region); trailing bytes 0, 5, 20", "features": "no-mmap build for every harness; default build for the success path"},
+                             + [twin("c08::c08_twin_reach")], timeout=900)],
+    thorough=lambda seed: [dict(cfg="nommap", harnesses=names("c08", C08_MEM + C08_REST + [], bound="file = real serialization of a symbolic value; fs stubs", what="load_mem/load_full/store", covers="none") + [twin("c08::c08_twin_reach")], timeout=2400)],
+    bounds={"files": "<= 64 bytes; reader types u32, u64, (u16,u16), [u32;1], ZeroS (derived zero-copy struct: borrowed reference inside the region); trailing bytes 0, 5, 20", "features": "no-mmap build only"},
     outside=["load_mmap, mmap and the 8 flag sets (mmap/madvise/mprotect FFI inside mmap-rs: a stub would be the property)", "cross-thread reads (Send/Sync impls): Kani has no concurrency",
+             "the default-features build: since the error paths of the loaders drop the backend in place, the drop glue of the Mmap variant (all of mmap-rs) is reachable from load_mem and CBMC exceeds 12 GB; load_mem/load_full/store contain no cfg-dependent code, the mmap feature only adds the enum variant and the two mmap loaders",
              "page-size effects, real file systems, short reads of a real file (C14 covers read_exact)", "files larger than 64 bytes: in particular every sequence type (their type names alone exceed the budget), so borrowed slices inside the region are covered only through zero-copy references (&ZeroS, &(u16,u16), &[u32;1])"],
     stubs=FS_STUBS, assumptions=["every stub of fsenv.rs"])
-C09_ALL = ["c09_release_u32", "c09_release_tup2", "c09_release_arr", "c09_fail_wrong_type", "c09_fail_wrong_type_zero", "c09_fail_truncated", "c09_fail_bad_magic", "c09_fail_bad_tag", "c09_fail_read_error",
+C09_ALL = ["c09_release_u32", "c09_release_tup2", "c09_release_arr", "c09_fail_wrong_type", "c09_fail_wrong_type_zero", "c09_fail_truncated", "c09_fail_bad_magic", "c09_fail_bad_tag", "c09_fail_read_io",
            "c09_escape_deref", "c09_escape_asref", "c09_scoped_use", "c09_eps_scope"]
 PLAN["C09"] = dict(
     quick=lambda seed: [dict(cfg="nommap", harnesses=[H("c09::" + n, bound="load_mem under fs stubs, no-mmap build; file contents symbolic", what="release exactly once / no leak on failure / no use after release through safe code", covers="none", role="load_mem/" + n[4:]) for n in C09_ALL]
                              + [twin("c09::c09_twin_reach")], timeout=900)],
-    thorough=lambda seed: [dict(cfg="nommap", harnesses=[H("c09::" + n, bound="load_mem under fs stubs, no-mmap build", what="lifetime of the backing memory", covers="none", role="load_mem/" + n[4:]) for n in C09_ALL] + [twin("c09::c09_twin_reach")], timeout=2400)],
+    thorough=lambda seed: [dict(cfg="nommap", harnesses=[H("c09::" + n, bound="load_mem under fs stubs, no-mmap build", what="lifetime of the backing memory", covers="none", role="load_mem/" + n[4:]) for n in C09_ALL + ["c09_fail_read_error"]] + [twin("c09::c09_twin_reach")], timeout=2400)],
     bounds={"loader": "load_mem only", "failure_causes": "wrong type (2 pairs), truncated file, corrupt magic, corrupt tag"},
     outside=["the borrow-checker half (programs that must be REJECTED by rustc): a type-check verdict is not a solver query; only the accept-side programs are compiled here",
              "load_mmap / mmap regions (mmap-rs objects, FFI); /proc/self/maps and real allocator accounting"],
